@@ -353,15 +353,17 @@ def run(chk):
             tag = f"C11.qed[dim={dim},order={order}]"
             cnt = {"i": 0}
 
+            QKEY = ("eko.kernels.singlet_qed", "eko_iterate", "iter:ev_op_iterations")      # the loop over the evolution steps; its accumulator is found by its role, not by its name
+
             def fresh(phase):
                 cnt["i"] += 1
-                return {"e": fixed_row_matrix(f"Q{phase}{cnt['i']}_", dim, tq)}
+                return {hook.ACTIVE_CUTS[QKEY].accumulator(): fixed_row_matrix(f"Q{phase}{cnt['i']}_", dim, tq)}
 
             def entry(env, iterable):
-                check_fixed(f"{tag}.loop_entry", env["e"], tq, fnname, "invariant v.e = v on entry")
+                check_fixed(f"{tag}.loop_entry", env[hook.ACTIVE_CUTS[QKEY].accumulator()], tq, fnname, "invariant v.e = v on entry")
 
             def preserved(env):
-                check_fixed(f"{tag}.loop_preserved", env["e"], tq, fnname, "invariant v.e = v preserved")
+                check_fixed(f"{tag}.loop_preserved", env[hook.ACTIVE_CUTS[QKEY].accumulator()], tq, fnname, "invariant v.e = v preserved")
 
             class AbstractList:
                 """as_list / a_half with symbolic step index"""
@@ -373,16 +375,13 @@ def run(chk):
                     return T.app(self.name, i)
 
             hook.ACTIVE_CUTS.clear()
-            hook.ACTIVE_CUTS[("eko.kernels.singlet_qed", "eko_iterate", 1)] = LoopSpec(fresh, lambda: T.var("step", "int"), entry, preserved)
+            hook.ACTIVE_CUTS[QKEY] = LoopSpec(fresh, lambda: T.var("step", "int"), entry, preserved)
             saved_em = ad.exp_matrix
             ad.exp_matrix = matexp_stub
             try:
-                K = disp(order, EvoMethods.ITERATE_EXACT, GG, AbstractList("as_list"), AbstractList("a_half"), 4, N, (1, 0))
-                check_fixed(f"{tag}.result", K, tq, fnname)
-            except Exception as e:
-                if isinstance(e, T.Unsupported):
-                    raise
-                chk.raised(f"{tag}.no_exception", e, fn=fnname, replay=rp)
+                # under path exploration: a kernel may branch on the couplings of the step (e.g. a fast path for a_em == 0); the invariant is checked on every path
+                for pt, _pc, K in chk.run_paths(tag, lambda: disp(order, EvoMethods.ITERATE_EXACT, GG, AbstractList("as_list"), AbstractList("a_half"), 4, N, (1, 0)), [], fn=fnname, replay=rp):
+                    check_fixed(f"{pt}.result", K, tq, fnname)
             finally:
                 ad.exp_matrix = saved_em
                 hook.ACTIVE_CUTS.clear()
